@@ -608,27 +608,40 @@ def r9(prog, run):
         raise AnalysisBroken('C10.R9: the resume flag of SmEnabled was not identified')
     flagq = flag[0].get('qname') or NS + 'SmEnabled::' + flag[0]['name']
     nw = 0
-    for f in prog.fns.values():
-        if f.entry is None or not f.file.endswith(('QXmppOutgoingClient.cpp', 'QXmppOutgoingClient_p.h')):
-            continue
 
+    def value_under_no_grant(f, expr):
         def custom(g, nid, st):
             n = g.nodes[nid]
             if n['k'] == 'mem' and n.get('f') == flagq:
                 return (False,)
             return None
-        ev = cfgx.Evaluator(f, {}, custom=custom, prog=prog)
+        return cfgx.Evaluator(f, {}, custom=custom, prog=prog).ev(expr)
+    sites = []          # (function, node to report, expression evaluated in function)
+    for f in prog.fns.values():
+        if f.entry is None or '/src/client/' not in f.file:
+            continue
         for i, n in f.all_nodes('assign'):
-            if f.nodes[f.skip(n['l'])].get('f') != fld:
+            if f.nodes[f.skip(n['l'])].get('f') != fld or n.get('op') != '=':
                 continue
-            nw += 1
-            run.instance(rid)
-            v = ev.ev(n['r']) if n.get('op') == '=' else None
-            if v is False:
-                run.ok(rid, f.loc(i), '%s = %s is false without the server\'s resume flag' % (fld.split('::')[-1], f.fmt(n['r'])[:50]), nontrivial=f.const_value(n['r']) is None)
+            r = f.nodes[f.resolve(n['r'])]
+            if r['k'] == 'var' and r.get('vk') == 'param':
+                # a setter: what its callers hand in
+                cs = [(c, ci) for c, ci in prog.callers().get(f.id, []) if c.nodes[ci]['k'] == 'call' and r.get('pidx') is not None and r['pidx'] < len(c.nodes[ci].get('args', []))]
+                if not cs:
+                    sites.append((f, i, n['r']))
+                for c, ci in cs:
+                    sites.append((c, ci, c.nodes[ci]['args'][r['pidx']]))
             else:
-                run.violation(rid, '%s#resumable-without-grant' % f.outer_name(), f.loc(i),
-                              '%s stores %s in %s: with resume absent / false in the server\'s <enabled/> this is %s, so the session is treated as resumable although the server '
-                              'did not grant resumption' % (f.display()[:50], f.fmt(n['r'], inline=False)[:60], fld.split('::')[-1], 'not false' if v is None else v))
+                sites.append((f, i, n['r']))
+    for f, i, expr in sites:
+        nw += 1
+        run.instance(rid)
+        v = value_under_no_grant(f, expr)
+        if v is False:
+            run.ok(rid, f.loc(i), '%s <- %s is false without the server\'s resume flag' % (fld.split('::')[-1], f.fmt(expr)[:50]), nontrivial=f.const_value(expr) is None)
+        else:
+            run.violation(rid, '%s#resumable-without-grant' % f.outer_name(), f.loc(i),
+                          '%s stores %s in %s: with resume absent / false in the server\'s <enabled/> this is %s, so the session is treated as resumable although the server '
+                          'did not grant resumption' % (f.display()[:50], f.fmt(expr, inline=False)[:60], fld.split('::')[-1], 'not false' if v is None else v))
     if nw < 2:
         raise AnalysisBroken('C10.R9: writes of %s not found' % fld)
